@@ -423,6 +423,24 @@ inline std::string hex_bytes(const std::string& s) { return hex_bytes(s.data(), 
 
 } // namespace verif
 
+
+// Relational operators for harness element types that are meant to be ordered ONLY through the
+// comparator handed to tlx. They exist, so that library code which (wrongly) compares elements with
+// operator< instead of the comparator still compiles, but they order by a scrambled key that agrees
+// with neither the ascending nor the descending comparators the harnesses use - such a mix-up then
+// shows up as a wrong result instead of a build failure of the harness.
+namespace verif {
+inline unsigned scramble_key(long long k) { return static_cast<unsigned>(k) * 2654435761u + 0x9e3779b9u; }
+} // namespace verif
+#define VERIF_MISLEADING_ORDER(T, field)                                                                        \
+    inline bool operator<(const T& a, const T& b) { return verif::scramble_key(a.field) < verif::scramble_key(b.field); }   \
+    inline bool operator>(const T& a, const T& b) { return b < a; }                                             \
+    inline bool operator<=(const T& a, const T& b) { return !(b < a); }                                         \
+    inline bool operator>=(const T& a, const T& b) { return !(a < b); }
+#define VERIF_MISLEADING_EQUALITY(T, field)                                                                     \
+    inline bool operator==(const T& a, const T& b) { return a.field == b.field; }                               \
+    inline bool operator!=(const T& a, const T& b) { return !(a == b); }
+
 #define VERIF_MAIN(fn) \
     int main(int argc, char** argv) { return verif::main_loop(argc, argv, fn); }
 #define VERIF_MAIN_INIT(fn, init) \
